@@ -329,6 +329,7 @@ def t_from_residual(I, a, fr, d):
     if x.variant == "None": return none(I)
     # Err(e) -> Err(From::from(e)) : conversion between error types through the repo's From impls
     e = x.cells[0].v
+    while isinstance(e, Opaque) and e.tag == "ConvertedError": e = e.payload      # lazily converted (generic E): convert the source
     if d is not None and d.kind == "adt" and len(d.args) == 2:
         et = d.args[1]
         if et.kind in ("proj",) or (et.kind == "adt" and et.name in I.tybind):
